@@ -182,20 +182,28 @@ Definition transparent_call_on_fields (a : fmt_attr) (fs : fields) : option (tex
 
 (** ** Which field a placeholder denotes ([bounded_types], [placeholders_by_arg]) *)
 
-(** the name a placeholder resolves to, if it resolves to a bare identifier *)
-Definition placeholder_name (a : fmt_attr) (p : placeholder) : option ident :=
+(** the name a placeholder resolves to, if it resolves to a bare identifier; [norm] is applied to an
+    identifier taken from an argument expression ([bounded_types] unraws it, [placeholders_by_arg] does not) *)
+Definition placeholder_name_with (norm : ident -> ident) (named_by_position : bool)
+           (a : fmt_attr) (p : placeholder) : option ident :=
   match ph_arg p with
   | Syntax.Named name =>
     match find (fun x => match alias x with Some al => ident_eqb al name | None => false end) (args a) with
-    | Some x => expr_ident (aexpr x)
+    | Some x => option_map norm (expr_ident (aexpr x))
     | None => Some name
     end
   | Positional i =>
     match nth_error (args a) (N.to_nat i) with
-    | Some x => match alias x with None => expr_ident (aexpr x) | Some _ => None end
+    | Some x => match alias x with
+                | None => option_map norm (expr_ident (aexpr x))
+                | Some _ => if named_by_position then option_map norm (expr_ident (aexpr x)) else None
+                end
     | None => None
     end
   end.
+
+Definition placeholder_name := placeholder_name_with unraw true.
+Definition placeholder_name_raw := placeholder_name_with (fun i => i) false.
 
 (** [name.strip_prefix('_').and_then(|s| s.parse().ok())]: digits only, no sign
     (usize::from_str also accepts a leading '+'; modelled) *)
@@ -218,7 +226,7 @@ Definition unnamed_index (name : ident) : option N :=
 Definition field_by_name (fs : fields) (name : ident) : option field :=
   match fk fs, unnamed_index name with
   | Unnamed, Some i => nth_error (fl fs) (N.to_nat i)
-  | Named, None => find (fun f => match fname f with
+  | Named, _ => find (fun f => match fname f with
                                   | Some n => ident_eqb (unraw n) name
                                   | None => false end) (fl fs)
   | _, _ => None
@@ -239,7 +247,7 @@ Definition bounded_types (a : fmt_attr) (fs : fields) : list (field * trait) :=
 
 (** [placeholders_by_arg name] / [contains_arg] *)
 Definition placeholders_by_arg (a : fmt_attr) (name : ident) : list placeholder :=
-  filter (fun p => match placeholder_name a p with
+  filter (fun p => match placeholder_name_raw a p with
                    | Some n => ident_eqb n name
                    | None => false end)
          (placeholders cc (lit a)).
@@ -407,6 +415,11 @@ Definition d_expand_enum (shared : option fmt_attr) (vs : list dexpansion) : res
   if negb (variant_spec_ok shared) then RErr E_variant_spec
   else collect_results (map d_expand_variant vs).
 
+(** the where-clause additions of the whole enum impl: the enum-level [bound(...)] predicates first,
+    then each variant's bounds in order *)
+Definition d_enum_bounds (enum_user_bounds : list N) (arms : list (body * list bound)) : list bound :=
+  map BUser enum_user_bounds ++ flat_map snd arms.
+
 (** [expand_struct]: no shared attribute, no unit/non-Display restriction *)
 Definition d_expand_struct (d : dexpansion) : result (body * list bound) :=
   match d_generate_body d with
@@ -477,12 +490,11 @@ Definition g_generate_bounds (g : gexpansion) : list bound :=
   | Some a => inferred (g_params g) (bounded_types a (g_fields g))
   | None =>
     flat_map (fun f =>
-                if negb (contains_generics (g_params g) (fty f)) then []
-                else match fattr f with
-                     | FFmt a => map (fun '(f', tr) => BTy (ftid f') tr) (bounded_types a (g_fields g))
-                     | FSkip => []
-                     | FNone => [BTy (ftid f) TrDebug]
-                     end)
+                match fattr f with
+                | FFmt a => inferred (g_params g) (bounded_types a (g_fields g))
+                | FSkip => []
+                | FNone => if contains_generics (g_params g) (fty f) then [BTy (ftid f) TrDebug] else []
+                end)
              (fl (g_fields g))
   end.
 
